@@ -4,16 +4,17 @@ CONSTANTS
   Smp = "asis"
   SumSamples = FALSE
   ExpSamples = FALSE
-  OptImpl = "pinned"
+  OptImpl = "fixed"
   Ctor = "bare"
   N = 3
-  Chans = 2
+  Chans = 3
   Temps = {"any"}
   Acts = {"mode", "fwd"}
   Writes = {"copy", "data", "optim"}
   Ckpts = {"soft"}
   Moves = "gen"
   InitAlpha = "any"
+  CtorOpts = "default"
   AllowKF = FALSE
   Grads = {TRUE}
   SelHows = {}
